@@ -40,7 +40,7 @@ type LeanStatus struct {
 	Forbidden   []string `json:"forbidden"`
 	FailedDecls []string `json:"failed_decls"`
 	Log         string   `json:"log"`
-	Gen       *struct {
+	Gen         *struct {
 		OK  bool   `json:"ok"`
 		Log string `json:"log"`
 	} `json:"gen"`
